@@ -192,3 +192,28 @@ PROPS["C06"] = {
                   "unexport-remove, diamond dependants) is reached both by enumeration of all short histories and by long random ones.",
     "level_note": "Depth bound on the exhaustive part; universe sizes as stated. Hook compiled in through cargo feature `verif`.",
 }
+
+PROPS["C18"] = {
+    "shards": 8,
+    "workers": ["worker", "worker-nowat"],
+    "extra_builds": ["nowat"],
+    "quick_budget_s": 120,
+    "thorough_budget_s": 300,
+    "floors": {"any": {"evaluations": 1296, "outcome:bytes": 600, "outcome:failure": 200, "outcome:skipped": 100, "outcome:unknown": 100}},
+    "rule": "Exhaustive decision table over real temporary directory trees: 6 package keys (2-3 name segments; unversioned, "
+            "1.0.0, 0.0.1, pre-release+build, 10.20.30) x 9 layouts at the candidate path <deps>/ns/name[/<version>] (absent, WIT "
+            "directory, empty directory, .wasm only, .wat only, both, .wasm + malformed .wat, plain file at the candidate path + "
+            ".wasm, only the decoys a `set_extension` implementation would read such as 1.0.wasm for 1.0.0) x 6 override states "
+            "(none, .wasm, .wat, .wit, dangling, directory) x both unknown-package modes = 648 rows, each run in two lanes: "
+            "wac-resolver built with its `wat` feature (main harness) and without it (harness-nowat). Oracle: the documented "
+            "lookup (README.md) written as a table, with returned bytes compared (SHA-256) against the file bytes / the harness's "
+            "own wat::parse / wit_component::encode. Non-trivial: any row with something on disk or an override; all rows distinct.",
+    "exhaustive_note": "the whole 648-row product is enumerated in both feature lanes on every run (quick = thorough)",
+    "assumptions": ["an override must be an existing *file* (a directory given as override is a resolution failure)",
+                    "with the `wat` feature off a .wat file is never looked at and a .wat override is returned as raw bytes",
+                    "wit_component::encode / wat::parse are deterministic, so byte equality is the right comparison"],
+    "technique": "runtime monitor: decision-table oracle over exhaustively enumerated real directory layouts, two feature lanes",
+    "level_text": "Every row of the documented lookup table is materialised as a real directory tree and resolved by the real "
+                  "FileSystemPackageResolver in both build configurations; outcome class and returned bytes must match the table.",
+    "level_note": "The table is our reading of README.md and of the property statement; symlinks, permissions and non-UTF-8 names are out of scope.",
+}
